@@ -196,7 +196,10 @@ def gen_session(o, ndim, k, wide):
 
 def _cube(o, ndim, corner=False):
     if corner:
-        return [o.choice([1e-12, 0.5, 1 - 1e-12, 0.999]) for _ in range(ndim)]
+        # (exact 0 and 1 are replaced by 1e-12 / 1-1e-12 at run time for
+        # priors of unbounded support)
+        return [o.choice([1e-12, 0.5, 1 - 1e-12, 0.999, 0.0, 1.0])
+                for _ in range(ndim)]
     return [o.uniform(0.001, 0.999) for _ in range(ndim)]
 
 
@@ -470,6 +473,12 @@ def execute(case, keep_text=False):
 
         def call_prior(self, step, cbs, u):
             u = list(u[:ndim]) + [0.5] * max(0, ndim - len(u))
+            for i_, sp_ in enumerate(specs):
+                if sp_['kind'] in ('Gaussian', 'LogGaussian'):
+                    # the inverse CDF is infinite at the ends of the cube
+                    u[i_] = min(max(u[i_], 1e-12), 1 - 1e-12)
+                elif u[i_] in (0.0, 1.0):
+                    out.bump('probes', 'cube_face_exactly')
             try:
                 if kind == 'nestle':
                     th = cbs['prior'](np.array(u, dtype=float))
